@@ -13,7 +13,11 @@ CONSTANTS MaxLen, Emit
 
 Ops == {"parse", "split", "format_reindent", "format_python", "format_case", "bad_option", "type_error",
         "abandon_keep", "abandon_drop", "recursion_error", "reconfigure", "clear", "default_init",
-        "format_aligned", "parse_junk", "add_keywords"}
+        "format_aligned", "parse_junk", "add_keywords",
+        \* a failing call whose failing statement is not the last one (the generator dies at a mid-stream yield)
+        "recursion_error_mid",
+        \* calls drawn from a generated pool (SqlGen programs with comments in the gaps): the replay picks the member
+        "pool_parse", "pool_split", "pool_strip_cw", "pool_ops_cw", "pool_reindent", "pool_case", "pool_aligned"}
 
 VARIABLES hist, cfg, done
 vars == <<hist, cfg, done>>
